@@ -33,6 +33,9 @@ type C16Script struct {
 	// PadByte: the byte the pad consists of (0, or 0x47: millions of sync bytes, every one a
 	// candidate that has to be rejected - 47 47 47 47 has adaptation_field_control 00)
 	PadByte int `json:"pad_byte,omitempty"`
+	// FailReadByte > 0 (exact scanner only): the scanner's FailReadByte-th ReadByte call fails
+	// once with a transient error of the scanner's own, consuming nothing; the next one works
+	FailReadByte int `json:"fail_read_byte,omitempty"`
 }
 
 type c16 struct{}
@@ -281,6 +284,12 @@ func (c16) Gen(r *core.Rand, tier string) interface{} {
 	if r.Chance(1, 4) {
 		s.Again = r.Pick(1, 2, 4, 187, 188, 189, r.Range(1, 400))
 	}
+	if s.Scanner == "exact" && r.Chance(1, 3) {
+		s.FailReadByte = r.Range(1, 2*len(st)+2)
+		if r.Chance(1, 2) {
+			s.FailReadByte = r.Range(1, 12)
+		}
+	}
 	if r.Chance(1, 3000) {
 		s.Pad = r.Pick(70000, 1000000, 1900000, 2500000)
 		if r.Chance(1, 3) {
@@ -394,7 +403,12 @@ type exactScanner struct {
 	pend    []byte
 	last    int // last byte read, -1 if none / already unread
 	pendErr error
+	// failAt > 0: the failAt-th ReadByte call fails once (nothing consumed)
+	failAt, readByteCalls int
+	fired                 bool
 }
+
+var errScannerTransient = errors.New("sim: the scanner's ReadByte failed (transient, nothing consumed)")
 
 func (e *exactScanner) fill(n int) error {
 	for len(e.pend) < n {
@@ -418,6 +432,11 @@ func (e *exactScanner) fill(n int) error {
 }
 
 func (e *exactScanner) ReadByte() (byte, error) {
+	e.readByteCalls++
+	if e.failAt > 0 && e.readByteCalls == e.failAt {
+		e.fired = true
+		return 0, errScannerTransient
+	}
 	if err := e.fill(1); err != nil {
 		return 0, err
 	}
@@ -471,12 +490,13 @@ func (c16) Exec(script interface{}, c *core.Ctx) {
 	}
 	var ps packet.PeekScanner
 	var rd io.Reader
+	var es *exactScanner
 	bs := s.BufSize
 	if bs < 16 {
 		bs = 16
 	}
 	if s.Scanner == "exact" {
-		es := &exactScanner{r: sr, last: -1}
+		es = &exactScanner{r: sr, last: -1}
 		ps, rd = es, es
 	} else {
 		br := bufio.NewReaderSize(sr, bs)
@@ -530,8 +550,18 @@ func (c16) Exec(script interface{}, c *core.Ctx) {
 
 	var off int64
 	var err error
+	if es != nil && s.FailReadByte > 0 {
+		es.failAt = s.FailReadByte
+	}
 	if !c.Call("packet.Sync", func() { off, err = packet.Sync(ps) }) {
 		return
+	}
+	if es != nil {
+		es.failAt = 0
+		if es.fired {
+			c.Probe("scanner_readbyte_failed_once")
+			c.Fault("scanner_readbyte_transient")
+		}
 	}
 	c.Log("sync off=%d err=%v reads=%d", off, err, sr.Calls)
 	c.Unit("read_calls", int64(sr.Calls))
@@ -551,6 +581,13 @@ func (c16) Exec(script interface{}, c *core.Ctx) {
 			c.Fail("offset", "offset_"+dir+"_want", off, want)
 			return
 		}
+	case err == errScannerTransient:
+		// the scanner's own failure, handed through: legitimate whenever it really fired. (A
+		// search that returns success after it must still report the right offset - above.)
+		if es == nil || !es.fired {
+			c.Fail("error_kind", "unexpected_error", err, want)
+		}
+		return
 	case parties.IsReaderFault(err):
 		// legitimate only if the failing Read began before the header's last byte had been delivered
 		if sr.FirstErr == nil || (want >= 0 && sr.FirstErrAt >= pre+want+4) {
@@ -696,6 +733,16 @@ func (c16) Shrink(script interface{}) []interface{} {
 		n := cp()
 		n.Default = ""
 		out = append(out, n)
+	}
+	if s.FailReadByte > 0 {
+		n := cp()
+		n.FailReadByte = 0
+		out = append(out, n)
+		if s.FailReadByte > 1 {
+			n = cp()
+			n.FailReadByte = s.FailReadByte - 1
+			out = append(out, n)
+		}
 	}
 	for _, ops := range parties.ShrinkReadOps(s.Reads) {
 		n := cp()
